@@ -19,6 +19,7 @@ type Case struct {
 	Amps []int64 `json:"amps"`
 	Pad  int     `json:"pad,omitempty"` // the amplitudes are repeated cyclically up to this buffer length
 	Fix  int     `json:"fix,omitempty"` // source construction order, see convtab.Entry.NewBlockFix
+	Ch   int     `json:"ch,omitempty"`  // channel count of the buffers (0 = 1): the values are interleaved over several channels
 }
 
 var Pairs = convtab.Select("SignedAsSigned", "SignedAsUnsigned", "UnsignedAsSigned", "UnsignedAsUnsigned")
@@ -45,14 +46,14 @@ type Runner struct {
 	rt    []int64
 }
 
-func NewRunner(e *convtab.Entry) *Runner { return NewRunnerFix(e, 0) }
+func NewRunner(e *convtab.Entry) *Runner { return NewRunnerFix(e, 0, 1) }
 
-func NewRunnerFix(e *convtab.Entry, fix int) *Runner {
-	r := &Runner{E: e, blk: e.NewBlockFix(fix)}
+func NewRunnerFix(e *convtab.Entry, fix, ch int) *Runner {
+	r := &Runner{E: e, blk: e.NewBlockShape(fix, ch)}
 	if e.D.Bits > e.S.Bits {
 		r.backs = Backs(e)
 		for _, b := range r.backs {
-			r.bblk = append(r.bblk, b.NewBlockFix(fix))
+			r.bblk = append(r.bblk, b.NewBlockShape(fix, ch))
 		}
 	}
 	return r
@@ -106,13 +107,13 @@ func Check(c *Case) (res kit.Result) {
 		}
 	}
 	var msg string
-	if c.Pad < 0 || c.Pad > 1<<20 || c.Fix < 0 || c.Fix > 2 {
+	if c.Pad < 0 || c.Pad > 1<<20 || c.Fix < 0 || c.Fix > 2 || c.Ch < 0 || c.Ch > 64 {
 		return
 	}
 	if c.Pad > len(c.Amps) {
 		res.Class("paddedToLongBuffer")
 	}
-	if p, v := kit.Try(func() { msg = NewRunnerFix(e, c.Fix).Run(kit.PadInts(c.Amps, c.Pad)) }); p {
+	if p, v := kit.Try(func() { msg = NewRunnerFix(e, c.Fix, c.Ch).Run(kit.PadInts(c.Amps, c.Pad)) }); p {
 		res.Failf("%s panicked: %v", e, v)
 		return
 	}
@@ -141,6 +142,7 @@ func FP(c *Case) uint64 {
 	h.Int(len(c.Amps))
 	h.Int(c.Pad)
 	h.Int(c.Fix)
+	h.Int(c.Ch)
 	for _, a := range c.Amps {
 		h.U64(uint64(a))
 	}
@@ -157,6 +159,7 @@ func Gen(t *rapid.T) *Case {
 	c := &Case{S: e.S.Name, D: e.D.Name}
 	c.Pad = kit.GenPad(t)
 	c.Fix = rapid.IntRange(0, 2).Draw(t, "fix")
+	c.Ch = rapid.SampledFrom([]int{1, 1, 2, 3, 5, 8}).Draw(t, "ch")
 	n := rapid.IntRange(1, 24).Draw(t, "n")
 	for i := 0; i < n; i++ {
 		c.Amps = append(c.Amps, kit.GenAmp(t, e.S.Bits, BAmps[e.S.Bits]))
